@@ -21,6 +21,9 @@ def val(v):
   return str(v)
 
 
+DEFAULT_PARAMS = {'nlsat.shuffle_vars': False, 'nlsat.seed': 0, 'nlsat.reorder': True}
+
+
 def main():
   for line in sys.stdin:
     line = line.strip()
@@ -48,6 +51,10 @@ def main():
         sys.stdout.write(json.dumps(out) + '\n')
         sys.stdout.flush()
         continue
+      for k_, v_ in DEFAULT_PARAMS.items():
+        z3.set_param(k_, v_)
+      for k_, v_ in (req.get('params') or {}).items():      # portfolio variants: e.g. a different nlsat variable order
+        z3.set_param(k_, v_)
       if req.get('tactic'):
         s = z3.Tactic(req['tactic']).solver()
       else:
